@@ -104,6 +104,13 @@ def api_cases(chk, tier):
         X = pbx.gen_bounds(rng, 200, kx, dy=rng.random() < 0.5)
         Y = pbx.gen_bounds(rng, 200, ky, dy=rng.random() < 0.5)
         out.append((op, "f", X, Y, (kx, ky), rng.random() < 0.3))
+    # thin p-boxes whose quantiles cross zero, with different lower ends: the Balch product of two straddling operands (its cross
+    # terms only show when x.lo != y.lo, and only in the tails against couplings of opposite endpoint selections)
+    t = [i / 199 for i in range(200)]
+    thin = lambda a, w, d: ([a + w * u for u in t], [a + d + w * u for u in t])
+    T = [thin(-1.0, 9.0, 1.0), thin(-6.0, 7.0, 1.0), thin(-3.0, 4.0, 1.0), thin(-1.0, 8.0, 1.0), thin(-8.0, 9.5, 0.5)]
+    for i, j in ((0, 1), (1, 0), (2, 3), (3, 2), (4, 0), (1, 3)):
+        out.append(("Mul", "f", T[i], T[j], ("thin-straddle", "thin-straddle"), (i + j) % 2 == 0))
     return out
 
 
@@ -189,13 +196,15 @@ def api_oracle(chk, case, out):
         q[i:] = np.arange(n - 1, i - 1, -1)
         perms.append(q)
     for pi in perms:
-        for sel in range(4):
+        for sel in range(5):
             if sel == 0:
                 xs, ys = XL, YL
             elif sel == 1:
                 xs, ys = XR, YR
             elif sel == 2:
                 xs, ys = XL, YR
+            elif sel == 4:
+                xs, ys = XR, YL
             else:
                 u = np.array([rng.random() for _ in range(n)])
                 v = np.array([rng.random() for _ in range(n)])
